@@ -63,7 +63,7 @@ func c20Build(chain []int, t *c20Trace) *checker.Checker {
 		case 1:
 			v := []string{"a", "b"}
 			if sym.Fail {
-				v = []string{"a", "", "b"}
+				v = []string{"", "a", "", "b", ""} // several empty entries: still exactly one callback
 			}
 			c.WithValuesNotEmptyCheck(func() []string { t.add(i, evBody); return v }, cb)
 		case 2:
@@ -418,19 +418,19 @@ func c20Kinds(run *ev.Run) {
 			}, cond && v == "")
 		}
 	}
-	// lists of length 0..3 with an empty element at each position (or none)
-	for L := 0; L <= 3; L++ {
-		for empty := -1; empty < L; empty++ {
+	// every list of length 0..4 over {empty, non-empty}: fails iff some element is empty, callback exactly once
+	for L := 0; L <= 4; L++ {
+		for mask := 0; mask < 1<<L; mask++ {
 			l := make([]string, L)
 			for i := range l {
 				l[i] = "x"
+				if mask&(1<<i) != 0 {
+					l[i] = ""
+				}
 			}
-			if empty >= 0 {
-				l[empty] = ""
-			}
-			one("WithValuesNotEmptyCheck", fmt.Sprintf("len=%d empty-at=%d", L, empty), func(c *checker.Checker, cb func()) {
+			one("WithValuesNotEmptyCheck", fmt.Sprintf("len=%d empty-mask=%b", L, mask), func(c *checker.Checker, cb func()) {
 				c.WithValuesNotEmptyCheck(func() []string { return l }, cb)
-			}, empty >= 0)
+			}, mask != 0)
 		}
 	}
 	for _, fail := range []bool{true, false} {
